@@ -158,6 +158,7 @@ type zzRouteCfg struct {
 	prefix bool
 	arg    string
 	hdr    string // required value of header "h" ("" = no header condition)
+	method string // required request method ("" = no method condition)
 }
 
 func zzBuild(doms []zzDomain, routes [][]zzRouteCfg) *v2.RouterConfiguration {
@@ -172,7 +173,10 @@ func zzBuild(doms []zzDomain, routes [][]zzRouteCfg) *v2.RouterConfiguration {
 				r.Match.Path = rc.arg
 			}
 			if rc.hdr != "" {
-				r.Match.Headers = []v2.HeaderMatcher{{Name: "h", Value: rc.hdr}}
+				r.Match.Headers = append(r.Match.Headers, v2.HeaderMatcher{Name: "h", Value: rc.hdr})
+			}
+			if rc.method != "" {
+				r.Match.Headers = append(r.Match.Headers, v2.HeaderMatcher{Name: "method", Value: rc.method})
 			}
 			r.Route.ClusterName = "c" + string(rune('0'+i)) + string(rune('0'+j))
 			vh.Routers = append(vh.Routers, r)
@@ -182,7 +186,7 @@ func zzBuild(doms []zzDomain, routes [][]zzRouteCfg) *v2.RouterConfiguration {
 	return cfg
 }
 
-func zzRefRoute(vh int, rcs []zzRouteCfg, path, hv string) string {
+func zzRefRoute(vh int, rcs []zzRouteCfg, path, hv, method string) string {
 	for j, rc := range rcs {
 		m := false
 		if rc.prefix {
@@ -190,7 +194,7 @@ func zzRefRoute(vh int, rcs []zzRouteCfg, path, hv string) string {
 		} else {
 			m = zzLower(path) == zzLower(rc.arg)
 		}
-		if m && (rc.hdr == "" || rc.hdr == hv) {
+		if m && (rc.hdr == "" || rc.hdr == hv) && (rc.method == "" || rc.method == method) {
 			return "c" + string(rune('0'+vh)) + string(rune('0'+j))
 		}
 	}
@@ -198,11 +202,19 @@ func zzRefRoute(vh int, rcs []zzRouteCfg, path, hv string) string {
 }
 
 func zzMatch(rs types.Routers, hostHeader, path, hv string) string {
+	return zzMatchM(rs, hostHeader, path, hv, "")
+}
+
+// zzMatchM: method "" leaves the method variable unset.
+func zzMatchM(rs types.Routers, hostHeader, path, hv, method string) string {
 	ctx := variable.NewVariableContext(context.Background())
 	if hostHeader != "" {
 		variable.SetString(ctx, types.VarHost, hostHeader)
 	}
 	variable.SetString(ctx, types.VarPath, path)
+	if method != "" {
+		variable.SetString(ctx, types.VarMethod, method)
+	}
 	got := ""
 	if r := rs.MatchRoute(ctx, protocol.CommonHeader{"h": hv}); r != nil {
 		got = r.RouteRule().ClusterName(ctx)
@@ -287,9 +299,38 @@ func VerifC04_RouteOrder() {
 	verif.Assume(err == nil)
 	path := "/" + zzLetters("path", verif.Choose("pl", 3), "pP")
 	hv := zzLetters("reqhv", 1, "xy")
-	want := zzRefRoute(0, rcs, path, hv)
+	want := zzRefRoute(0, rcs, path, hv, "")
 	got := zzMatch(rs, "a", path, hv)
 	verif.Assert(got == want, "selected route is not the first matching route in configuration order")
+	if want != "" {
+		verif.Cover("matched")
+	}
+	verif.Cover("end")
+}
+
+// VerifC04_RouteMethod: a route's method condition (configured as the header
+// matcher named "method") holds only for requests whose method variable
+// equals it, alone or together with an ordinary header condition; the first
+// route in configuration order whose matchers all hold is used. Paths are
+// catch-all prefixes here (path matching is RouteOrder's subject).
+func VerifC04_RouteMethod() {
+	nr := 1 + verif.Choose("nr", verif.Param("mroutes", 2, 3))
+	var rcs []zzRouteCfg
+	for j := 0; j < nr; j++ {
+		rc := zzRouteCfg{prefix: true, arg: "/"}
+		if verif.Choose("hashdr", 2) == 1 {
+			rc.hdr = "x"
+		}
+		rc.method = []string{"", "GET", "POST"}[verif.Choose("cfg_method", 3)]
+		rcs = append(rcs, rc)
+	}
+	rs, err := NewRouters(zzBuild([]zzDomain{{kind: 0}}, [][]zzRouteCfg{rcs}))
+	verif.Assume(err == nil)
+	hv := zzLetters("reqhv", 1, "xy")
+	method := []string{"", "GET", "POST", "get"}[verif.Choose("req_method", 4)] // "" = no method variable (non-HTTP protocol)
+	want := zzRefRoute(0, rcs, "/p", hv, method)
+	got := zzMatchM(rs, "a", "/p", hv, method)
+	verif.Assert(got == want, "selected route ignores or misapplies a method condition")
 	if want != "" {
 		verif.Cover("matched")
 	}
